@@ -353,6 +353,7 @@ type err =
 | ERenderNonMapping of string
 | EResolving of err
 | EClassNotFound of string
+| EIncludeLoop of string list * string
 | EUnknownNode of string
 | EClassPath of string
 | EDeserialize of string * err
@@ -733,8 +734,8 @@ val merge_into : node -> node -> (node * node) res
 val include_name : nat -> mapping -> string -> string res
 
 val render_impl :
-  nat -> nat -> ncfg -> cls_entry list -> node -> string list -> node ->
-  ((node * string list) * node) res
+  nat -> nat -> ncfg -> cls_entry list -> node -> string list -> string list
+  -> node -> ((node * string list) * node) res
 
 type nmeta = { m_name : string; m_uri : string; m_parts : string list }
 
